@@ -44,7 +44,7 @@ pub const MUT_COMMENTS: &[&str] = &["[- c -]", "[-é-]", " [- ö ü -] ", "[-- n
 
 pub fn recipe_input_strategy(mutate: bool) -> impl Strategy<Value = InputCase> {
     let muts = if mutate {
-        proptest::collection::vec((0u8..9, any::<u16>(), 0usize..ALPHABET.len(), any::<char>()), 1..5).boxed()
+        proptest::collection::vec((0u8..10, any::<u16>(), 0usize..ALPHABET.len(), any::<char>()), 1..5).boxed()
     } else {
         Just(vec![]).boxed()
     };
@@ -85,6 +85,8 @@ pub fn recipe_input_strategy(mutate: bool) -> impl Strategy<Value = InputCase> {
                 }
                 // a block comment (some with multi-byte content, some with dashes next to the delimiters)
                 7 => pieces.insert(i, MUT_COMMENTS[tok % MUT_COMMENTS.len()].to_string()),
+                // a line comment ending in a multi-byte character, and the line break that ends it
+                8 => pieces.insert(i, [" -- é\n", "-- 😀\n", " --é\r\n", "--\n"][tok % 4].to_string()),
                 // the piece doubled many times (long names, long digit runs, many entries)
                 _ => {
                     let p = pieces[i].clone();
@@ -129,7 +131,7 @@ pub fn run_recipe_inputs(run: &mut Run, b: &Budget, rule: &str, oracle: InputOra
     run_prop(
         run,
         "recipe-mutations",
-        &format!("generated recipes with 1-4 token-level mutations (delete / duplicate / swap / insert / replace by an alphabet token / insert any character / exotic blank / block comment / repeat a piece 4-12 times) to reach deep analysis states with malformed input; {rule}"),
+        &format!("generated recipes with 1-4 token-level mutations (delete / duplicate / swap / insert / replace by an alphabet token / insert any character / exotic blank / block comment / line comment + line break / repeat a piece 4-12 times) to reach deep analysis states with malformed input; {rule}"),
         || recipe_input_strategy(true),
         b.recipe_cases,
         |c: &InputCase, st| {
